@@ -36,12 +36,18 @@ def run(rep):
     ns = C.NCPU
     C.run_drivers_parallel([('d_branch.py', [g.out_path, d / f'obs{k}.ndjson', k, ns], {}) for k in range(ns)])
     # witness requests intercepted in real proofs
-    jobs = P.corpus_jobs(rep.seed, 40 if thorough else 8, 'c06', 'verdict', orders=2, max_steps=150)
+    jobs = P.corpus_jobs(rep.seed, 40 if thorough else 8, 'c06', 'final', orders=2, max_steps=150, mode='step', systematic=True)
     outs = P.run_jobs(jobs, 'c06')
     wit = []
+    nsteps = 0
     for r in P.read_records(outs):
         for k, w in enumerate(r.get('witness', [])):
             wit.append(dict(w, rec='witness', id=f"{r['id']}#{k}", item=w['item'] or ['c', -1, -1]))
+        for k, ev in enumerate(r.get('events', [])):
+            e = ev['entry']
+            if ev['e'] == 'step' and any(n['k'] == 'a' for g in e['adds'] for n in g):
+                nsteps += 1
+                wit.append({'rec': 'step', 'id': f"{r['id']}@{k}", 'rule': e['rule'], 'adds': e['adds'], 'pre_worlds': e['pre_worlds']})
     wfiles = []
     for k, sh in enumerate(C.shard(wit, 4)):
         f = d / f'wit{k}.ndjson'
@@ -68,7 +74,8 @@ def run(rep):
         raise C.MachineryError(f'C06: expected {nh + len(wit)} records, validated {total}')
     rep.cov['model_drift'] = drift
     rep.cov['histories'] = nh
-    rep.cov['witness_requests'] = len(wit)
+    rep.cov['witness_requests'] = len(wit) - nsteps
+    rep.cov['witness_steps'] = nsteps
     rep.cov['evaluations'] = nh * depth + len(wit)
     rep.cov['distinct_nontrivial'] = nh
     rep.cov['rule'] = (f'every history of exactly {depth} append/copy operations over 11 node kinds (3 constants, 3 worlds, access pairs) '
